@@ -170,7 +170,8 @@ CHECKS["C18"] = dict(
          "requests raise ValueError, in-range ones never do, channels come out descending. read_plan: blocks hold exactly the reported samples "
          "and tile the request as in C01 (same obligations). Value pipeline: ((raw - zero_off)*scale + offset)*weight and the polarisation "
          "selection are proved for symbolic raw values/scales/offsets/weights at a small shape (replayed on a copy of the shipped file with rewritten weight/scale/offset "
-         "columns; ascending-frequency behaviour on a twin with reversed DAT_FREQ). Streaming reductions then follow from C06, which only depends on the read_plan contract.",
+         "columns; ascending-frequency behaviour on a twin with reversed DAT_FREQ). Header.from_pfits labels the channels as delivered (first label = highest frequency, "
+         "negative spacing) for symbolic channel frequencies of either order. Streaming reductions then follow from C06, which only depends on the read_plan contract.",
     note="astropy.io.fits is FFI: row access is a contract stub; header value types are outside; replay only at the shape of tests/data/parkes_4bit.sf; "
          "single-polarisation layouts are not claimed.",
     design="DESIGN.md section 4 (C18)")
